@@ -373,6 +373,15 @@ class PHand(PSubSub):
 
 @symbol
 @dataclass(eq=False)
+class PInit:
+    """the dataclass field order differs from the constructor's parameter order: `uid` is not a constructor parameter"""
+    uid: int = field(init=False, default=7)
+    name: str = 'x'
+    size: int = 1
+
+
+@symbol
+@dataclass(eq=False)
 class POther:
     name: str
     size: int = 1
